@@ -53,8 +53,13 @@ RULES = {
     "subgraph's nodes register themselves as users of outer values while they are built), the entries are made unique by name "
     "*before* they are deserialized - otherwise the nodes of the replaced subgraph stay in uses() of values of the returned model "
     "although they are not part of it",
+    "R12": "free text is carried, not rewritten: inside the deserialize functions a string read from the proto (a name, a "
+    "doc string, an external-data location, a metadata value …) is never passed through a rewriting operation that is not "
+    "idempotent (replace, removeprefix/removesuffix, translate, re.sub, expandtabs, slicing) on its way into the IR - the "
+    "serializer writes the rewritten text back, the next deserialization rewrites it again, and for inputs where one pass "
+    "creates a new match (`....//x` → `../x` → `x`) the serialized form is not a fixed point",
 }
-FLOORS = {"R1": 45, "R2": 6, "R3": 5, "R4": 5, "R5": 2, "R6": 3, "R7": 2, "R8": 3, "R9": 2, "R10": 4, "R11": 1}
+FLOORS = {"R1": 45, "R2": 6, "R3": 5, "R4": 5, "R5": 2, "R6": 3, "R7": 2, "R8": 3, "R9": 2, "R10": 4, "R11": 1, "R12": 1}
 EXPLANATION = (
     "Effect summaries (file-system primitives through the resolved call graph) for the deserialization entry set and "
     "the cheap tensor accessors; a sub-term analysis of every recursive call edge of the deserializer; dominator "
@@ -587,7 +592,87 @@ def _ancestors(node, stop):
         p_ = getattr(p_, "_parent", None)
 
 
+_REWRITERS = {"replace", "removeprefix", "removesuffix", "translate", "expandtabs", "zfill", "center", "ljust", "rjust"}
+_REWRITE_FUNCS = {"re.sub", "re.subn"}
+
+
+def _proto_text_names(ctx, f: FuncInfo) -> set[str]:
+    """Locals of f that hold something read from a proto (or from onnx's ExternalDataInfo view of one)."""
+    ty = ctx.typer
+
+    def protoish(e) -> bool:
+        root = e
+        while isinstance(root, (ast.Attribute, ast.Subscript)) or (isinstance(root, ast.Call) and isinstance(root.func, ast.Attribute)):
+            root = root.value if not isinstance(root, ast.Call) else root.func.value
+        if not isinstance(root, ast.Name) or root is e:
+            return False
+        if root.id in tainted:
+            return True
+        t = ty.type_of(f, root)
+        return any(a[0].startswith("proto") or (a[0] == "ext" and "ExternalDataInfo" in a[1]) for a in t)
+
+    tainted: set[str] = set()
+    for _ in range(3):
+        for n in own_nodes(f.node):
+            if isinstance(n, ast.Assign) and len(n.targets) == 1 and isinstance(n.targets[0], ast.Name) and protoish(n.value):
+                tainted.add(n.targets[0].id)
+            if isinstance(n, (ast.For, ast.comprehension)) and isinstance(n.target, ast.Name) and protoish(n.iter):
+                tainted.add(n.target.id)
+    return tainted, protoish
+
+
+def rule_r12(ctx):
+    n = 0
+    for f in deser_funcs(ctx):
+        for g in [f] + list(f.nested.values()):
+            if isinstance(g.node, ast.Lambda):
+                continue
+            tainted, protoish = _proto_text_names(ctx, g)
+
+            def text(e):
+                return protoish(e) or (isinstance(e, ast.Name) and e.id in tainted)
+
+            def in_message(x):
+                p_ = getattr(x, "_parent", None)
+                while p_ is not None and p_ is not g.node:
+                    if isinstance(p_, ast.Raise):
+                        return True
+                    if isinstance(p_, ast.Call) and (dotted_of(p_.func) or "").split(".")[0] in ("logger", "logging", "warnings"):
+                        return True
+                    p_ = getattr(p_, "_parent", None)
+                return False
+
+            for x in own_nodes(g.node):
+                if isinstance(x, ast.Attribute) and text(x) and isinstance(getattr(x, "ctx", None), ast.Load):
+                    n += 1
+                bad = None
+                if isinstance(x, ast.Call) and isinstance(x.func, ast.Attribute) and x.func.attr in _REWRITERS and text(x.func.value):
+                    bad = x
+                elif isinstance(x, ast.Call) and (dotted_of(x.func) or "") in _REWRITE_FUNCS and any(text(a) for a in x.args):
+                    bad = x
+                elif isinstance(x, ast.Subscript) and isinstance(x.slice, ast.Slice) and isinstance(getattr(x, "ctx", None), ast.Load) and text(x.value) \
+                        and _is_text_field(ctx, g, x.value):
+                    bad = x
+                if bad is not None and not in_message(bad):
+                    ctx.check("R12", f"{g.local}: {norm(bad)[:70]} rewrites text read from the proto", False, g, bad,
+                              f"`{norm(bad)[:90]}` rewrites a string of the proto with an operation that is not idempotent: the serializer writes the result back and "
+                              "the next round trip rewrites it again (one pass can create a new match), so the serialized form is not a fixed point",
+                              how="receiver / argument is rooted at a proto-typed name (resolver) or a local copied from one", construct=f"rewrite {norm(bad)[:50]}")
+    ctx.ob("R12", f"{n} reads of proto-derived text in the deserialize functions: none passes through a non-idempotent rewriting operation", True,
+           how="replace / removeprefix / removesuffix / translate / re.sub / slices on expressions rooted at a proto-typed name")
+    ctx.require(n >= 25, f"only {n} reads of proto-derived values found in the deserialize functions")
+
+
+def _is_text_field(ctx, g, e) -> bool:
+    """The sliced expression is a string field (a slice of a repeated field - dims[1:] - is no text rewrite)."""
+    t = ctx.typer.type_of(g, e)
+    if any(a[0] in ("protorep", "protorepscalar", "seq", "tuple", "dict", "protomap") for a in t):
+        return False
+    return isinstance(e, ast.Attribute) and e.attr in ("name", "doc_string", "location", "domain", "op_type", "overload", "key", "value", "s", "ref_attr_name", "denotation", "dim_param")
+
+
 def run(ctx):
+    rule_r12(ctx)
     rule_r11(ctx)
     rule_r9(ctx)
     rule_r8(ctx)
